@@ -1125,6 +1125,64 @@ namespace c15
             vf::sample("long line: %s", R.witness().c_str());
     }
 
+    // -------------------------------------------------------------- suite: deep histories (ring index arithmetic)
+    // The history ring's depth, head and selection are uint8_t fields and the slot of the k-th most recent entry is
+    // (head + depth - k) % depth: with depths of 100..255 the sum passes 255 (seeded C15-r5s1 kept it in 8 bits: wrong
+    // entries from depth 128 on once enough lines were entered).  Depths around 128 and up to 255, distinct lines
+    // entered short of / exactly / one past / more than twice around the ring, then UP through the whole ring and
+    // beyond, DOWN again, execution of a recalled line (duplicate suppression compares with the newest slot), more
+    // lines, more recalls.  After every byte the recalled line and all `depth` accessor slots are compared with the
+    // reference ring.
+    static const unsigned DEPTHS[8] = {4, 16, 100, 127, 128, 129, 200, 255};
+    static inline uint64_t deep_count() { return 8 * 4 * (vf::thorough() ? 12 : 2); }
+    template <class Term> static void deep_run(uint64_t idx)
+    {
+        char tag[40];
+        snprintf(tag, sizeof tag, "%s:vterm-deep-history", Term::impl());
+        vf::cls(tag);
+        vf::Rng r(vf::seed(), 0xDEE9, idx);
+        unsigned H = DEPTHS[idx % 8];
+        int fill = (int)((idx / 8) % 4);
+        unsigned var = (unsigned)(idx / 32);
+        Cfg cfg{var % 2 ? 6u : 9u, H, var % 3 ? "#>" : nullptr, 2048};
+        LongScript S;
+        unsigned serial = var * 7919;
+        auto enter = [&](unsigned n) {
+            for (unsigned i = 0; i < n; i++, serial++)
+            { // distinct 4-character lines
+                unsigned v = serial;
+                for (int c = 0; c < 4; c++, v /= 26)
+                    S.bytes += (char)('a' + v % 26);
+                S.bytes += KEY_BYTES[serial % 3 ? K_CR : K_LF];
+            }
+            char t[48];
+            snprintf(t, sizeof t, "enter(%u lines) ", n);
+            S.text += t;
+        };
+        unsigned n1 = fill == 0 ? H - 1 : fill == 1 ? H : fill == 2 ? H + 1 : 2 * H + 3 + (var > 1 ? (unsigned)r.below(H) : 0);
+        enter(n1);
+        S.rep(K_UP, H + 2);
+        S.rep(K_DOWN, var > 1 ? (unsigned)r.range(1, (int)H) : H / 2 + 1);
+        S.rep(K_CR, 1); // execute a recalled line: it becomes the newest entry
+        S.rep(K_UP, 1);
+        S.rep(K_CR, 1); // the newest entry again: suppressed as a duplicate
+        S.rep(K_UP, var > 1 ? (unsigned)r.range(1, (int)H + 1) : H);
+        S.rep(K_DOWN, 2);
+        enter(var > 1 ? 1 + (unsigned)r.below(H) : 3);
+        S.rep(K_UP, H + 1);
+        S.rep(K_DOWN, H + 2);
+        Runner<Term> R(cfg);
+        R.script = S.text;
+        R.start();
+        run_bytes(R, S.bytes);
+        vf::count_case(vf::hash_bytes(S.bytes.data(), S.bytes.size(), vf::mix(cfg.cap * 1024 + H, idx)), true);
+        VF_MAX("deepest history ring driven", H);
+        if (H >= 128 && n1 + H > 255)
+            VF_OK("history recall with head + depth beyond 255");
+        if (H == 200 && fill == 3 && var == 0 && vf::want_sample())
+            vf::sample("deep history: %s", R.witness().substr(0, 400).c_str());
+    }
+
     // ------------------------------------------------------------------------------------------------ sline driven directly
     // SL adapter: SL(unsigned cap), int putchar(char), int newdata(const char*, int), int backspace(unsigned),
     //   int del(unsigned), int left(), int right(), const char* getline(), unsigned len(), unsigned cursor(),
@@ -1425,7 +1483,7 @@ namespace c15
                               "history accessor: k-th most recent entry == reference ring, terminated inside its slot",
                               "re-init: empty line, empty history, prompt shown again", "re-init with a smaller capacity", "re-init with a larger capacity",
                               "re-init with the same capacity and depth", "sline: re-init with another exact buffer",
-                              "edit with >= 256 characters right of the cursor", "history recall with the cursor at column >= 256",
+                              "edit with >= 256 characters right of the cursor", "history recall with the cursor at column >= 256", "history recall with head + depth beyond 255",
                               "exhaustive batch (one configuration and prefix, all continuations of 3 keys)"})
             vf::require(c);
         // every reference action must have been driven
